@@ -678,7 +678,7 @@ KINDS = [('SetParent', 12), ('SetChildren', 9), ('SetLinks', 8), ('ChAppend', 9)
          ('ChMove', 8), ('ChSort', 4), ('ChReorder', 4), ('ChRemoveAll', 2), ('LnAppend', 5), ('LnRemove', 3),
          ('LnRemoveAll', 2), ('OpFloordiv', 9), ('OpShift', 7), ('LstShift', 5), ('LstSetParent', 2), ('LstSetChildren', 4), ('LstSetLinks', 4),
          ('WbsRemove', 2),
-         ('WbsRemoveAll', 3), ('SetEst', 1), ('SetPrio', 2), ('DeepLink', 5), ('SortNone', 3), ('Promote', 3), ('Diamond', 3), ('DeepUndo', 4), ('StaleList', 4), ('ReleaseReuse', 3), ('AdoptRootRemove', 3), ('BulkUndoNeighbour', 3)]
+         ('WbsRemoveAll', 3), ('SetEst', 1), ('SetPrio', 2), ('DeepLink', 5), ('SortNone', 3), ('Promote', 3), ('Diamond', 3), ('DeepUndo', 4), ('StaleList', 4), ('ReleaseReuse', 3), ('AdoptRootRemove', 3), ('BulkUndoNeighbour', 3), ('LongChainCycle', 2)]
 P_ILLEGAL = 0.43
 P_STALE = 0.21      # share of list calls that ASK for a pooled facade; ~15 % find one
 
@@ -1545,6 +1545,31 @@ class Gen:
                       (['SetParent', bad, q], dict(how, v=None)),
                       (['LstSetLinks', d, order, [q]], dict(how, src=['raw', order], form=rng.choice(['list', 'single']), v=None))]
         return ['NewTask', ids[0], None, 'a', None], {}
+
+    def g_LongChainCycle(self, V):
+        """aims at a dependency cycle that is LONG: a chain of five fresh tasks c1 -> c2 -> ... -> c5, then the last one is
+        asked to precede the first (from the predecessor side or from the successor side): the closure behind the cycle check
+        has to reach four links deep"""
+        rng = self.rng
+        if getattr(self, 'longchain_done', False):
+            return None
+        self.longchain_done = True
+        how = {'aim': 'long-chain-cycle'}
+        n0 = V.n
+        c = [n0 + i for i in range(5)]
+        side = rng.random() < 0.5            # True: the links are made (and the cycle is asked for) on predecessor lists
+        q = [(['NewTask', 41 + i, None, 'c', None], {}) for i in range(1, 5)]
+        for i in range(1, 5):
+            q.append((['SetLinks', True, c[i], [c[i - 1]]], dict(how, form='list')) if side else
+                     (['SetLinks', False, c[i - 1], [c[i]]], dict(how, form='list')))
+        r = rng.random()
+        if side:
+            close = ['LnAppend', True, c[0], c[4]] if r < 0.4 else ['SetLinks', True, c[0], [c[4]]] if r < 0.7 else ['OpShift', True, c[0], [c[4]]]
+        else:
+            close = ['LnAppend', False, c[4], c[0]] if r < 0.4 else ['SetLinks', False, c[4], [c[0]]] if r < 0.7 else ['OpShift', False, c[4], [c[0]]]
+        q.append((close, dict(how, form='list', v=None) if close[0] != 'LnAppend' else dict(how, facade=None)))
+        self.queue = q
+        return ['NewTask', 41, None, 'c', None], {}
 
     def g_AdoptRootRemove(self, V):
         """aims at a ROOT task of a WBS that is adopted by another member of the same WBS through a children assignment
